@@ -36,7 +36,7 @@ theorem clean_is_safe (s : Str) (h : Clean s) : Safe.safe s = true := CleanProps
 theorem accepted_colors_ok (r : Config.Raw) (p : Config.Parsed) (h : Config.postprocess r = .ok p) :
     ColorsOk p.colors := by
   have hs := C19.accepted_safe r p h
-  obtain ⟨_, _, _, _, hc⟩ := hs
+  obtain ⟨_, _, _, _, _, _, hc⟩ := hs
   have key := C01aux.rgb_sgrOk
   refine ⟨key _ _ (Or.inl rfl) (hc _ (by simp)), key _ _ (Or.inl rfl) (hc _ (by simp)),
           key _ _ (Or.inr rfl) (hc _ (by simp)), key _ _ (Or.inr rfl) (hc _ (by simp))⟩
